@@ -10,6 +10,7 @@ package cmd
 
 import (
 	"context"
+	"encoding/json"
 	"fmt"
 	"io"
 	"os"
@@ -275,6 +276,66 @@ func c20ReadyWait(t *testing.T, timeout, reportAt time.Duration, reportOk bool, 
 	return op, res
 }
 
+// c20WitnessForeignBusy is the DIRECTED witness of the open finding c20-foreign-busy-ends-client-wait:
+// `dae reload` A is accepted and its client polls with the real waitReloadCompletion; while A is being
+// processed a `dae suspend` B is refused by the real tryQueueReloadRequest; what does A's client read?
+func c20WitnessForeignBusy(t *testing.T, progPath string) map[string]string {
+	out := map[string]string{}
+	synctest.Test(t, func(t *testing.T) {
+		log := c20DiscardLog()
+		m := newReloadManager(make(chan reloadRequest, 1), make(chan struct{}, 1), nil)
+		outbounddialer.VerifC20ResetSuppression()
+		_ = writeSignalProgressFile(progPath, consts.ReloadDone, "")
+		accepted := false
+		// client A: the real helper writes ReloadSend and "signals"; the main loop takes the signal
+		if err := writeReloadSendAndSignal(progPath, 1, func(int, syscall.Signal) error {
+			accepted = m.queueReloadRequest(log, c20MkRequest(false, c20TakeAbort()))
+			return nil
+		}); err != nil {
+			out["error"] = err.Error()
+			return
+		}
+		out["a_accepted"] = c20B(accepted)
+		type res struct {
+			code    byte
+			content string
+			err     error
+		}
+		ch := make(chan res, 1)
+		go func() {
+			c, s, e := waitReloadCompletion(progPath, 500*time.Millisecond, 200*time.Millisecond, reloadProgressWaitTimeout)
+			ch <- res{c, s, e}
+		}()
+		// worker picks A up
+		<-m.reloadReqs
+		m.reloadActive.Store(true)
+		_ = setRunSignalProgress(consts.ReloadProcessing, "")
+		time.Sleep(300 * time.Millisecond)
+		// `dae suspend` B (no pre-check): refused
+		out["b_accepted"] = c20B(m.queueReloadRequest(log, c20MkRequest(true, c20TakeAbort())))
+		// A keeps being processed for a while
+		select {
+		case r := <-ch:
+			out["a_client_code"] = string([]byte{r.code})
+			out["a_client_msg"] = r.content
+			out["pending_when_a_client_returned"] = c20B(m.reloadPending.Load())
+			out["active_when_a_client_returned"] = c20B(m.reloadActive.Load())
+		case <-time.After(5 * time.Second):
+			out["a_client_code"] = "still-waiting"
+		}
+		// A succeeds
+		_ = setRunSignalProgress(consts.ReloadDone, "OK")
+		m.reloadActive.Store(false)
+		clearReloadPending(&m.reloadPending)
+		if _, ok := out["a_client_msg"]; !ok {
+			r := <-ch
+			out["a_client_final_code"] = string([]byte{r.code})
+		}
+		synctest.Wait()
+	})
+	return out
+}
+
 func c20RetireStream(t *testing.T, st *VStats, r *VRand) int {
 	out := VOpenStream("c20ret")
 	defer out.Close()
@@ -286,6 +347,9 @@ func c20RetireStream(t *testing.T, st *VStats, r *VRand) int {
 	beginReloadProxyFailureSuppression = outbounddialer.BeginReloadProxyFailureSuppression
 	endReloadProxyFailureSuppression = outbounddialer.EndReloadProxyFailureSuppression
 
+	if b, err := json.Marshal(c20WitnessForeignBusy(t, progPath)); err == nil {
+		_ = os.WriteFile(filepath.Join(VOutDir(), "c20.witness.json"), b, 0o644)
+	}
 	total := reloadTotalSwitchBudget
 	n := 0
 	emit := func(op, res string) {
